@@ -71,8 +71,35 @@ def lateclosed(rng):
     return {"family": "gated", "spec": spec, "inputs": {"s": rng.randrange(spec["table_len"]), "x": "run:x"}, "kw": {}, "unique_outputs": True, "template": "late-closed-gate"}
 
 
+def nested_entry(rng):
+    """Two or three SIBLING nested graphs running in the same step; one or two of them were built with
+    with_entrypoint(...) and hold a node OUTSIDE the entry scope whose inputs are satisfiable all the same (it reads
+    the shared input).  Only the entry node and what is downstream of it may run in such a graph - however the
+    siblings' runs interleave (the scope belongs to the nested run, not to the runner)."""
+    nodes = []
+    n_sub = rng.randint(2, 3)
+    scoped = set(rng.sample(range(n_sub), rng.randint(1, 2)))
+    for j in range(n_sub):
+        inner = [
+            {"k": "fn", "name": f"s{j}a", "params": [{"n": "x"}], "outs": [f"m{j}"]},
+            {"k": "fn", "name": f"s{j}b", "params": [{"n": f"m{j}"}], "outs": [f"o{j}"]},
+        ]
+        if rng.random() < 0.5:
+            inner.append({"k": "fn", "name": f"s{j}c", "params": [{"n": f"o{j}"}], "outs": [f"p{j}"]})
+        prog = {"name": f"sub{j}", "nodes": inner, "bind": {}}
+        if j in scoped:
+            inner.append({"k": "fn", "name": f"s{j}stray", "params": [{"n": "x"}], "outs": [f"stray{j}"]})
+            rng.shuffle(inner)
+            prog["entry"] = [f"s{j}a"]
+        nodes.append({"k": "sub", "name": f"sub{j}", "prog": prog})
+    rng.shuffle(nodes)
+    return {"family": "nested", "spec": {"name": "g", "nodes": nodes, "bind": {}}, "inputs": {"x": "run:x"}, "kw": {}, "unique_outputs": True, "template": "nested-entry"}
+
+
 def pick(rng, names):
     n = rng.choice(names)
+    if n == "nested-entry":
+        return nested_entry(rng)
     if n == "rewait":
         return rewait(rng)
     if n == "lateclosed":
